@@ -25,6 +25,9 @@ func mathBits(f float64) uint64 { return math.Float64bits(f) }
 // OpDesc is an operation as drawn: abstract picks that are resolved against
 // the receiver's schema when the operation is about to run.
 type OpDesc struct {
+	// Last: the receiver is the most recently added member (whatever the
+	// build phase produced last, e.g. a frame in error state).
+	Last bool  `json:"last,omitempty"`
 	Kind int   `json:"kind"`
 	Recv int   `json:"recv"`
 	Arg  int   `json:"arg"`
@@ -54,7 +57,7 @@ func DrawSibling(t *rapid.T, prev *OpDesc) OpDesc {
 	if prev == nil || rapid.IntRange(0, 2).Draw(t, "sibling") != 0 {
 		return DrawOp(t)
 	}
-	d := OpDesc{Kind: prev.Kind, Recv: prev.Recv, Arg: prev.Arg, N: append([]int{}, prev.N...)}
+	d := OpDesc{Last: prev.Last, Kind: prev.Kind, Recv: prev.Recv, Arg: prev.Arg, N: append([]int{}, prev.N...)}
 	n := rapid.IntRange(1, 3).Draw(t, "nvary")
 	for i := 0; i < n; i++ {
 		d.N[rapid.IntRange(0, nParams-1).Draw(t, "vary")] = rapid.IntRange(0, 255).Draw(t, "p")
@@ -71,12 +74,15 @@ func DrawStorm(t *rapid.T, nclients int) [][]OpDesc {
 	if rapid.Bool().Draw(t, "stormfilter") {
 		d0.Kind = 0 // filters are the hot path where caches and fast paths get added
 	}
-	if rapid.Bool().Draw(t, "stormbase") {
+	switch rapid.IntRange(0, 3).Draw(t, "stormrecv") {
+	case 0, 1:
 		d0.Recv = 0 // on the first base frame (the one that is sometimes huge)
+	case 2:
+		d0.Last = true // on whatever was derived last
 	}
 	progs := make([][]OpDesc, nclients)
 	for c := range progs {
-		d := OpDesc{Kind: d0.Kind, Recv: d0.Recv, Arg: d0.Arg, N: append([]int{}, d0.N...)}
+		d := OpDesc{Last: d0.Last, Kind: d0.Kind, Recv: d0.Recv, Arg: d0.Arg, N: append([]int{}, d0.N...)}
 		if rapid.Bool().Draw(t, "stormvary") {
 			d.N[rapid.IntRange(0, nParams-1).Draw(t, "vary")] = rapid.IntRange(0, 255).Draw(t, "p")
 		}
@@ -93,11 +99,36 @@ type Outcome struct {
 	Canon string
 	New   []*Member
 	Panic string
+	// ArgChanged is set when a value the caller passed IN (a filter clause, a
+	// list of column names) is not what it was before the call.
+	ArgChanged string
+}
+
+// guarded hands out cols as a prefix of a longer array whose next element is
+// a sentinel: an operation that appends to the slice it was given writes over
+// the sentinel. check reports what changed, "" if nothing.
+func guarded(cols []string) (passed []string, check func() string) {
+	full := make([]string, len(cols)+1)
+	copy(full, cols)
+	full[len(cols)] = "\x00sentinel"
+	want := append([]string{}, cols...)
+	return full[:len(cols)], func() string {
+		if full[len(cols)] != "\x00sentinel" {
+			return fmt.Sprintf("the array behind the column list %q was written beyond its length: %q", want, full[len(cols)])
+		}
+		for i := range want {
+			if full[i] != want[i] {
+				return fmt.Sprintf("column list %q became %q", want, full[:len(cols)])
+			}
+		}
+		return ""
+	}
 }
 
 // Exec is a resolved operation: operands and parameters are fixed, Run can be
 // executed any number of times (every run builds fresh closures).
 type Exec struct {
+	Debug  string
 	D      OpDesc
 	Other  *Member
 	Kind   string
@@ -111,7 +142,7 @@ var frameOps = []string{
 	"filter", "filter", "filter", "sort", "sort", "slice", "select", "drop", "copy",
 	"apply", "apply", "filteredapply", "eval", "eval", "rownums", "distinct", "groupby", "groupby",
 	"tocsv", "tojson", "string", "equals", "misc", "view", "view", "aggregate-direct",
-	"tojson", "tojson-fault", "tocsv-fault",
+	"tojson", "tojson-fault", "tocsv-fault", "renew", "bad-filter",
 }
 
 func pick(d OpDesc, i int) int { return d.N[i%len(d.N)] }
@@ -121,7 +152,11 @@ func strPtr(s string) *string { return &s }
 // Resolve turns an abstract operation into an executable one against the
 // current family.
 func Resolve(w *World, d OpDesc, client int) *Exec {
-	return ResolveWith(w, d, client, w.Members[d.Recv%len(w.Members)], w.Members[d.Arg%len(w.Members)])
+	recv := w.Members[d.Recv%len(w.Members)]
+	if d.Last {
+		recv = w.Members[len(w.Members)-1]
+	}
+	return ResolveWith(w, d, client, recv, w.Members[d.Arg%len(w.Members)])
 }
 
 // ResolveWith resolves d against an explicit receiver and second operand
@@ -145,7 +180,15 @@ func resolveWith(w *World, d OpDesc, client int, recv, other *Member) *Exec {
 	return resolveFrame(w, d, recv, other, client)
 }
 
+// SkipObservation makes operations hand back their result without looking at
+// it (cold build phase of the race engine: the harness must not be the first
+// to read a value's cells or error text).
+var SkipObservation bool
+
 func frameOutcome(f qframe.QFrame, origin string, client int, unordered bool) *Outcome {
+	if SkipObservation {
+		return &Outcome{Canon: "unobserved", New: []*Member{{Kind: KFrame, F: f, Origin: origin, Owner: client}}}
+	}
 	var o *obs.Frame
 	Atomic(func() { o = obs.Of(f) })
 	out := &Outcome{New: []*Member{{Kind: KFrame, F: f, Origin: origin, Owner: client}}}
@@ -202,12 +245,16 @@ func leaf(m *Member, col string, d OpDesc, o int) (qframe.Filter, string) {
 		case "col":
 			others := colsOfType(m, "int", "float")
 			f.Comparator, f.Arg = []string{">", "<=", "=", "!="}[p(2)%4], types.ColumnName(others[p(3)%len(others)])
+			op, c = f.Comparator.(string)+" column", 0
+			desc = fmt.Sprintf("%s %s %v", col, op, f.Arg)
 		case "isnull", "isnotnull":
 			f.Comparator = op
 		default:
 			f.Comparator, f.Arg = op, c
 		}
-		desc = fmt.Sprintf("%s %s %v", col, op, c)
+		if desc == "" {
+			desc = fmt.Sprintf("%s %s %v", col, op, c)
+		}
 	case "float":
 		ops := []string{">", ">=", "<", "<=", "=", "!=", "isnull", "isnotnull", "fn", "col"}
 		op := ops[p(0)%len(ops)]
@@ -353,11 +400,28 @@ func resolveFrame(w *World, d OpDesc, recv, other *Member, client int) *Exec {
 	ex := &Exec{Recv: recv, Kind: kind}
 	switch kind {
 	case "filter":
+		// the clause is a value the caller owns: it is built once per world and
+		// description, used by every execution of this operation (also by
+		// other clients that run the same one) and must come back unchanged
 		_, desc := clause(recv, d, 0, 0)
 		ex.Desc = id + ".Filter(" + desc + ")"
+		key := fmt.Sprint(recv.ID, d.Kind, d.N) // the whole descriptor: the text leaves details out
+		if w.clauses == nil {
+			w.clauses = map[string]qframe.FilterClause{}
+		}
+		c, ok := w.clauses[key]
+		if !ok {
+			c, _ = clause(recv, d, 0, 0)
+			w.clauses[key] = c
+		}
+		before := c.String()
+		ex.Debug = fmt.Sprintf("%+v", c)
 		ex.Run = func() *Outcome {
-			c, _ := clause(recv, d, 0, 0)
-			return frameOutcome(f.Filter(c), ex.Desc, client, false)
+			out := frameOutcome(f.Filter(c), ex.Desc, client, false)
+			if after := c.String(); after != before {
+				out.ArgChanged = "the filter clause passed to Filter changed from " + before + " to " + after
+			}
+			return out
 		}
 	case "sort":
 		var orders []qframe.Order
@@ -616,7 +680,8 @@ func resolveFrame(w *World, d OpDesc, recv, other *Member, client int) *Exec {
 		ex.Desc = fmt.Sprintf("%s.Distinct(%q, null=%v)", id, cols, null)
 		ex.Mutual = true
 		ex.Run = func() *Outcome {
-			res := f.Distinct(groupby.Columns(cols...), groupby.Null(null))
+			passed, check := guarded(cols)
+			res := f.Distinct(groupby.Columns(passed...), groupby.Null(null))
 			out := frameOutcome(res, ex.Desc, client, true)
 			// which representative is kept is unspecified: compare the key classes only
 			o := obs.Of(res)
@@ -638,6 +703,7 @@ func resolveFrame(w *World, d OpDesc, recv, other *Member, client int) *Exec {
 				sort.Strings(keys)
 				out.Canon = fmt.Sprintf("%q|%d|", o.Names, o.Len) + strings.Join(keys, "\n")
 			}
+			out.ArgChanged = check()
 			return out
 		}
 	case "groupby":
@@ -649,8 +715,9 @@ func resolveFrame(w *World, d OpDesc, recv, other *Member, client int) *Exec {
 		ex.Desc = fmt.Sprintf("%s.GroupBy(%q, null=%v)", id, cols, null)
 		ex.Mutual = true
 		ex.Run = func() *Outcome {
-			g := f.GroupBy(groupby.Columns(cols...), groupby.Null(null))
-			return &Outcome{Canon: canonGrouper(g), New: []*Member{{Kind: KGrouper, G: g, Origin: ex.Desc, Owner: client, Keys: cols}}}
+			passed, check := guarded(cols)
+			g := f.GroupBy(groupby.Columns(passed...), groupby.Null(null))
+			return &Outcome{Canon: canonGrouper(g), New: []*Member{{Kind: KGrouper, G: g, Origin: ex.Desc, Owner: client, Keys: cols, ArgCheck: check}}, ArgChanged: check()}
 		}
 	case "aggregate-direct":
 		cols := subset(names, d, 0)
@@ -658,9 +725,12 @@ func resolveFrame(w *World, d OpDesc, recv, other *Member, client int) *Exec {
 		ex.Desc = fmt.Sprintf("%s.GroupBy(%q, null=%v).Aggregate(...)", id, cols, null)
 		ex.Mutual = true
 		ex.Run = func() *Outcome {
-			g := f.GroupBy(groupby.Columns(cols...), groupby.Null(null))
+			passed, check := guarded(cols)
+			g := f.GroupBy(groupby.Columns(passed...), groupby.Null(null))
 			res := g.Aggregate(aggsFor(recv.Names, recv.Types, cols, d)...)
-			return frameOutcome(res, ex.Desc, client, true)
+			out := frameOutcome(res, ex.Desc, client, true)
+			out.ArgChanged = check()
+			return out
 		}
 	case "tocsv":
 		header := p(0)%4 != 0
@@ -686,6 +756,29 @@ func resolveFrame(w *World, d OpDesc, recv, other *Member, client int) *Exec {
 			var buf bytes.Buffer
 			err := f.ToJSON(&buf)
 			return &Outcome{Canon: fmt.Sprintf("%v|%q", err, buf.String())}
+		}
+	case "bad-filter":
+		// misuse that yields a frame in error state (a value like any other:
+		// it must stay what it is, and reading its Err from several callers at
+		// once must be safe)
+		col := anyCol(0)
+		ex.Desc = fmt.Sprintf("%s.Filter(%q with an argument of the wrong type)", id, col)
+		ex.Run = func() *Outcome {
+			return frameOutcome(f.Filter(qframe.Filter{Column: col, Comparator: ">", Arg: struct{}{}}), ex.Desc, client, false)
+		}
+	case "renew":
+		// build a new frame from what the views of this one hand out
+		ex.Desc = id + ".{views -> New}"
+		ex.Run = func() *Outcome {
+			m := &Member{Kind: KFrame, F: f}
+			var cp *Member
+			var ok bool
+			Atomic(func() { m.snapshot() })
+			cp, ok = m.FreshCopy()
+			if !ok {
+				return &Outcome{Canon: "not rebuilt"}
+			}
+			return frameOutcome(cp.F, ex.Desc, client, false)
 		}
 	case "tojson-fault", "tocsv-fault":
 		// a serialisation that fails part-way (the writer accepts `at` bytes):
@@ -962,7 +1055,11 @@ func resolveGrouper(w *World, d OpDesc, recv *Member, client int) *Exec {
 		o := obs.Of(frames[0])
 		keys := recv.Keys
 		res := g.Aggregate(aggsFor(o.Names, o.Types, keys, d)...)
-		return frameOutcome(res, ex.Desc, client, true)
+		out := frameOutcome(res, ex.Desc, client, true)
+		if recv.ArgCheck != nil {
+			out.ArgChanged = recv.ArgCheck()
+		}
+		return out
 	}
 	return ex
 }
